@@ -463,8 +463,18 @@ def judge_step(root, before, after, step, stats=None):
         if full in before.covered or tags == {'MANIFEST'}:
             continue
         exp = ref_tag(profile, full)
+        if exp == 'AUX':
+            # an AUX path is written relative to <Manifest dir>/files/: when the closest Manifest is not the one
+            # of the package directory (no ebuild, no metadata.xml, none pre-existing there; or a Manifest inside
+            # files/) the prescribed tag is not expressible
+            g = os.path.dirname(full)
+            while g and g not in have:
+                g = os.path.dirname(g)
+            if g != '/'.join(full.split('/')[:2]):
+                exp = None
         if exp is None:
-            dc('tag: statement silent (deep *.ebuild / file named files / files-looking path outside a package)')
+            dc('tag: statement silent (deep *.ebuild / file named files / files-looking path outside a package / '
+               'files/ of a directory without a package Manifest)')
             continue
         if stats is not None:
             stats.counters['tag/' + exp] += 1
@@ -651,8 +661,9 @@ def run_shard(spec, tier, seed, scratch):
             seq = fam in ('pkg', 'odd') and ((full_repo and grid in ((1, 1), (2, 2))) or grid == (1, 1))
         else:
             over = fam in ('pkg', 'alike', 'odd') and (grid != (4, 4) or full_repo)
-            first_varies = all(tuple(p) == repogen.PKG_FULL for c in sh['cats'] for p in c[1:]) and \
-                all(tuple(c[0]) == repogen.PKG_FULL for c in sh['cats'][1:])
+            full_pkg = set(repogen.PKG_FULL)
+            first_varies = all(set(p) == full_pkg for ci, c in enumerate(sh['cats']) for pi, p in enumerate(c)
+                               if (ci, pi) != (0, 0))
             seq = fam == 'odd' or (fam == 'pkg' and (small or (full_repo and grid == (4, 4) and first_varies))) or \
                 (fam == 'alike' and full_repo and grid[0] == grid[1])
         if over:
